@@ -529,6 +529,23 @@ fn self_check() {
         assert!(!k.verifies("sha256", b"x07 self check.", &s));
     }
     assert_eq!(b64(b"any carnal pleas"), "YW55IGNhcm5hbCBwbGVhcw==");
+    // second opinion: the RustCrypto crates agree with the driver's own SHA-2 and PKCS#1 v1.5 signatures
+    {
+        use rsa::pkcs1::DecodeRsaPrivateKey;
+        use rsa::signature::{SignatureEncoding, Signer};
+        use sha2::Digest;
+        let msg = content(3);
+        assert_eq!(sha2::Sha256::digest(&msg).to_vec(), sha256(&msg));
+        assert_eq!(sha2::Sha384::digest(&msg).to_vec(), sha384(&msg));
+        assert_eq!(sha2::Sha512::digest(&msg).to_vec(), sha512(&msg));
+        for (i, h) in KEY_DER_HEX.iter().enumerate() {
+            let sk = rsa::RsaPrivateKey::from_pkcs1_der(&hex::decode(h).unwrap()).expect("test key");
+            let theirs = rsa::pkcs1v15::SigningKey::<sha2::Sha256>::new(sk.clone()).sign(&msg).to_vec();
+            assert_eq!(theirs, key(i as u64 + 1).sign("sha256", &msg), "signature of key {}", i + 1);
+            let theirs = rsa::pkcs1v15::SigningKey::<sha2::Sha512>::new(sk).sign(&msg).to_vec();
+            assert_eq!(theirs, key(i as u64 + 1).sign("sha512", &msg), "signature of key {}", i + 1);
+        }
+    }
 }
 
 
@@ -590,7 +607,7 @@ fn build_cert(c: &Value) -> Vec<u8> {
         name,
         spki,
     ];
-    if let Some(s) = c["ski"].as_str() {
+    if let Some(s) = c["ski"].as_str().filter(|s| !s.is_empty()) {
         tbs.push(ctx_explicit(3, &seq(&[seq(&[oid(OID_SKI_EXT), octets(&octets(&ski_bytes(s)))])])));
     }
     let tbs = seq(&tbs);
@@ -600,11 +617,8 @@ fn build_cert(c: &Value) -> Vec<u8> {
     cert
 }
 
-fn signed_attrs(dalg: &str, a: &Value) -> Vec<Vec<u8>> {
-    let md = match &a["md"] {
-        Value::Number(n) => digest(dalg, &content(n.as_u64().unwrap())),
-        _ => vec![0x5a; digest(dalg, b"").len()],
-    };
+fn signed_attrs(dalg: &str, md: u64) -> Vec<Vec<u8>> {
+    let md = if md > 0 { digest(dalg, &content(md)) } else { vec![0x5a; digest(dalg, b"").len()] };
     vec![seq(&[oid(OID_CT_ATTR), set_of(&[oid(OID_DATA)])]), seq(&[oid(OID_MD_ATTR), set_of(&[octets(&md)])])]
 }
 
@@ -614,10 +628,23 @@ struct Built {
     sigs: Vec<Vec<u8>>,
 }
 
-/// CMS ContentInfo(SignedData).
-/// {"certs":[cert..],"signers":[{"sid":{"t":"isn","name":..,"serial":..}|{"t":"ski","ski":hex},"dalg":..,"by":k,
-///   "over":{"t":"content","c":n}|{"t":"attrs"}|{"t":"junk"},"attrs":null|{"md":n|"junk"}}..],
-///  "econtent":null|n,"wrap":"signed"|"data"}
+/// signing is deterministic: remember (key, digest, message digest) -> signature
+fn sign_cached(kid: u64, dalg: &str, msg: &[u8]) -> Vec<u8> {
+    static CACHE: std::sync::OnceLock<Mutex<HashMap<(u64, String, Vec<u8>), Vec<u8>>>> = std::sync::OnceLock::new();
+    let cache = CACHE.get_or_init(|| Mutex::new(HashMap::new()));
+    let dig = digest(dalg, msg);
+    let id = (kid, dalg.to_string(), dig.clone());
+    if let Some(v) = cache.lock().unwrap().get(&id) {
+        return v.clone();
+    }
+    let sig = key(kid).sign_digest(dalg, &dig);
+    cache.lock().unwrap().insert(id, sig.clone());
+    sig
+}
+
+/// CMS ContentInfo(SignedData) from the abstract description (records of spec/Signature.tla):
+/// {"certs":[cert..],"signers":[{"sidt":"isn"|"ski","sname":..,"sserial":..,"sski":hex,"dalg":..,"by":k,
+///   "over":"content"|"attrs"|"junk","oc":n,"attrs":bool,"md":n}..],"econtent":n (0 = detached),"wrap":"signed"|"data"}
 fn build_cms(d: &Value) -> Built {
     let empty = vec![];
     let mut sigs = vec![];
@@ -625,20 +652,20 @@ fn build_cms(d: &Value) -> Built {
     let mut dalgs: Vec<Vec<u8>> = vec![];
     for s in d["signers"].as_array().unwrap_or(&empty) {
         let dalg = s["dalg"].as_str().unwrap_or("sha256");
-        let k = key(s["by"].as_u64().expect("signer.by"));
-        let (ver, sid) = match s["sid"]["t"].as_str().expect("sid.t") {
-            "isn" => (1, seq(&[name_der(s["sid"]["name"].as_str().unwrap()), int_u(s["sid"]["serial"].as_u64().unwrap())])),
-            "ski" => (3, tlv(0x80, &ski_bytes(s["sid"]["ski"].as_str().unwrap()))),
+        let kid = s["by"].as_u64().expect("signer.by");
+        let (ver, sid) = match s["sidt"].as_str().expect("signer.sidt") {
+            "isn" => (1, seq(&[name_der(s["sname"].as_str().unwrap()), int_u(s["sserial"].as_u64().unwrap())])),
+            "ski" => (3, tlv(0x80, &ski_bytes(s["sski"].as_str().unwrap()))),
             other => panic!("driver: unknown sid type {other}"),
         };
-        let attrs = if s["attrs"].is_null() { None } else { Some(signed_attrs(dalg, &s["attrs"])) };
-        let sig = match s["over"]["t"].as_str().expect("over.t") {
-            "content" => k.sign(dalg, &content(s["over"]["c"].as_u64().unwrap())),
-            "attrs" => k.sign(dalg, &set_of(attrs.as_ref().expect("over attrs needs attrs"))),
+        let attrs = if s["attrs"].as_bool().unwrap_or(false) { Some(signed_attrs(dalg, s["md"].as_u64().unwrap_or(0))) } else { None };
+        let sig = match s["over"].as_str().expect("signer.over") {
+            "content" => sign_cached(kid, dalg, &content(s["oc"].as_u64().unwrap())),
+            "attrs" => sign_cached(kid, dalg, &set_of(attrs.as_ref().expect("driver: over = attrs needs attrs"))),
             "junk" => {
                 // a well-formed number below the modulus that nobody signed
-                let mut r = Rng::new(0x5167 + s["by"].as_u64().unwrap());
-                let mut v = r.bytes(k.klen());
+                let mut r = Rng::new(0x5167 + kid);
+                let mut v = r.bytes(key(kid).klen());
                 v[0] &= 0x3f;
                 v
             }
@@ -659,9 +686,9 @@ fn build_cms(d: &Value) -> Built {
         sigs.push(sig);
         sinfos.push(seq(&f));
     }
-    let eci = match d["econtent"].as_u64() {
-        Some(c) => seq(&[oid(OID_DATA), ctx_explicit(0, &octets(&content(c)))]),
-        None => seq(&[oid(OID_DATA)]),
+    let eci = match d["econtent"].as_u64().unwrap_or(0) {
+        0 => seq(&[oid(OID_DATA)]),
+        c => seq(&[oid(OID_DATA), ctx_explicit(0, &octets(&content(c)))]),
     };
     let mut sd = vec![int_u(if sinfos.is_empty() { 1 } else { 3 }), set_of(&dalgs), eci];
     let certs: Vec<Vec<u8>> = d["certs"].as_array().unwrap_or(&empty).iter().map(build_cert).collect();
@@ -747,8 +774,8 @@ fn call_mime_v1(raw: &[u8], sd: Option<&[u8]>) -> Value {
                 Some(si) => json!(if si.verification.is_valid { "valid" } else { "invalid" }),
             };
             json!({"class": "ok", "data_md5": trimmed_md5(r.data.as_bytes()), "data_len": r.data.len(), "sig": sig,
-                "cks": r.checksum, "raw_kept": r.raw == raw,
-                "signers": r.signature_info.as_ref().map(|s| s.signer_count), "certs": r.signature_info.as_ref().map(|s| s.certificate_count)})
+                "cks": r.checksum.clone().unwrap_or_else(|| "none".into()), "raw_kept": r.raw == raw,
+                "nsig": r.signature_info.as_ref().map(|s| s.signer_count as i64).unwrap_or(-1)})
         }
     }
 }
@@ -757,7 +784,9 @@ fn call_mime_legacy(raw: &[u8]) -> Value {
         Err(p) => json!({"class": "panic", "msg": short(p)}),
         Ok(Err(e)) => json!({"class": "err", "msg": short(e.to_string())}),
         Ok(Ok(r)) => json!({"class": "ok", "data_md5": trimmed_md5(r.data.as_bytes()), "data_len": r.data.len(),
-            "sig": if r.signature.is_some() { "some" } else { "none" }, "sig_md5": r.signature.as_ref().map(|s| md5hex(s)), "cks": r.checksum}),
+            "sig": if r.signature.is_some() { "some" } else { "none" },
+            "sig_md5": r.signature.as_ref().map(|s| md5hex(s)).unwrap_or_else(|| "none".into()),
+            "cks": r.checksum.clone().unwrap_or_else(|| "none".into())}),
     }
 }
 fn mime_code(r: &Value) -> u8 {
@@ -776,97 +805,87 @@ fn mime_code(r: &Value) -> u8 {
 // =========================================================================== MIME envelope
 struct Envelope {
     raw: Vec<u8>,
-    /// [lo, hi) of the data part's text, the signature part's body, the checksum digits
-    data_at: (usize, usize),
-    sig_at: Option<(usize, usize)>,
-    /// for base64 bodies: offset of character j of the base64 text (line breaks skipped)
-    sig_chars: Vec<usize>,
+    /// the digits written after "Checksum: " ("none" without epilogue)
+    cks_text: String,
+    /// offset in `raw` of byte i of the signature blob (binary body), or of base64 character j (text bodies)
+    sig_pos: Vec<usize>,
+    b64: bool,
 }
 
-/// {"c":n,"disp":"version","sig":null|{"cms":{..}}|{"junk":"text"|"der"|"b64"},"enc":"cte"|"line"|"wrap"|"bin",
-///  "order":"ds"|"sd","cks":"none"|"sha256"|"sha256uc"|"md5"|"bad64"|"bad32","mp":true|false}
+/// {"c":n,"disp":"version","sig":"none"|"cms"|"junk_text"|"junk_der"|"cut","cms":{..},"enc":"cte"|"bin"|"tline",
+///  "order":"ds"|"sd","cks":"none"|"sha256"|"sha256uc"|"md5"|"bad64"|"bad32","mp":bool}
 fn build_envelope(m: &Value) -> (Envelope, Option<Built>) {
     let b = "X07Boundary";
     let body = content(m["c"].as_u64().unwrap_or(1));
     let mut built = None;
-    let sig_bytes: Option<Vec<u8>> = match &m["sig"] {
-        Value::Null => None,
-        s if s["cms"].is_object() => {
-            let bb = build_cms(&s["cms"]);
+    let sig_bytes: Option<Vec<u8>> = match m["sig"].as_str().unwrap_or("none") {
+        "none" => None,
+        "cms" => {
+            let bb = build_cms(&m["cms"]);
             let d = bb.der.clone();
             built = Some(bb);
             Some(d)
         }
-        s => Some(match s["junk"].as_str().expect("sig.junk") {
-            "der" => seq(&[oid(OID_DATA), ctx_explicit(0, &octets(b"not a signature"))]),
-            "cut" => {
-                let mut v = build_cms(&json!({"certs": [], "signers": [], "econtent": null})).der;
-                v.truncate(v.len() - 3);
-                v
-            }
-            _ => b"this is not a signature at all".to_vec(),
-        }),
+        "junk_der" => Some(seq(&[oid(OID_DATA), ctx_explicit(0, &octets(b"well-formed DER, not a signature"))])),
+        "cut" => {
+            let mut v = build_cms(&json!({"certs": [], "signers": [], "econtent": 0})).der;
+            v.truncate(v.len() - 3);
+            Some(v)
+        }
+        "junk_text" => Some(b"this is not a signature at all".to_vec()),
+        other => panic!("driver: unknown signature kind {other}"),
     };
     let mut raw: Vec<u8> = vec![];
-    let mut data_at = (0, 0);
-    let mut sig_at = None;
-    let mut sig_chars = vec![];
-    let multipart = m["mp"].as_bool().unwrap_or(true);
-    if !multipart {
+    let mut sig_pos = vec![];
+    let mut is_b64 = false;
+    if !m["mp"].as_bool().unwrap_or(true) {
         raw.extend_from_slice(b"MIME-Version: 1.0\r\nContent-Type: text/plain\r\n\r\n");
-        data_at.0 = raw.len();
         raw.extend_from_slice(&body);
-        data_at.1 = raw.len();
     } else {
         raw.extend_from_slice(format!("MIME-Version: 1.0\r\nContent-Type: multipart/alternative; boundary=\"{b}\"\r\n\r\n").as_bytes());
         let disp = m["disp"].as_str().unwrap_or("version").to_string();
         let enc = m["enc"].as_str().unwrap_or("cte").to_string();
-        let mut put_data = |raw: &mut Vec<u8>| {
+        let put_data = |raw: &mut Vec<u8>| {
             raw.extend_from_slice(format!("--{b}\r\nContent-Type: text/plain\r\nContent-Disposition: {disp}\r\n\r\n").as_bytes());
-            data_at.0 = raw.len();
             raw.extend_from_slice(&body);
-            data_at.1 = raw.len();
             raw.extend_from_slice(b"\r\n");
         };
         let mut put_sig = |raw: &mut Vec<u8>| {
-            if let Some(sb) = &sig_bytes {
-                raw.extend_from_slice(format!("--{b}\r\nContent-Type: application/octet-stream\r\nContent-Disposition: signature\r\n").as_bytes());
-                match enc.as_str() {
-                    "cte" | "wrap" => {
-                        // base64 in lines of 64 characters; "cte" announces it, "wrap" does not
-                        if enc == "cte" {
-                            raw.extend_from_slice(b"Content-Transfer-Encoding: base64\r\n");
+            let Some(sb) = &sig_bytes else { return };
+            let ctype = if enc == "tline" { "text/plain" } else { "application/octet-stream" };
+            raw.extend_from_slice(format!("--{b}\r\nContent-Type: {ctype}\r\nContent-Disposition: signature\r\n").as_bytes());
+            match enc.as_str() {
+                "cte" => {
+                    // announced base64 in lines of 64 characters
+                    raw.extend_from_slice(b"Content-Transfer-Encoding: base64\r\n\r\n");
+                    for (i, ch) in b64(sb).bytes().enumerate() {
+                        if i > 0 && i % 64 == 0 {
+                            raw.extend_from_slice(b"\r\n");
                         }
-                        raw.extend_from_slice(b"\r\n");
-                        let lo = raw.len();
-                        let t = b64(sb);
-                        for (i, ch) in t.bytes().enumerate() {
-                            if i > 0 && i % 64 == 0 {
-                                raw.extend_from_slice(b"\r\n");
-                            }
-                            sig_chars.push(raw.len());
-                            raw.push(ch);
-                        }
-                        sig_at = Some((lo, raw.len()));
+                        sig_pos.push(raw.len());
+                        raw.push(ch);
                     }
-                    "line" => {
-                        raw.extend_from_slice(b"\r\n");
-                        let lo = raw.len();
-                        for ch in b64(sb).bytes() {
-                            sig_chars.push(raw.len());
-                            raw.push(ch);
-                        }
-                        sig_at = Some((lo, raw.len()));
+                    is_b64 = true;
+                }
+                "tline" => {
+                    // a text part holding one line of base64, not announced
+                    raw.extend_from_slice(b"\r\n");
+                    for ch in b64(sb).bytes() {
+                        sig_pos.push(raw.len());
+                        raw.push(ch);
                     }
-                    _ => {
-                        raw.extend_from_slice(b"Content-Transfer-Encoding: binary\r\n\r\n");
-                        let lo = raw.len();
-                        raw.extend_from_slice(sb);
-                        sig_at = Some((lo, raw.len()));
+                    is_b64 = true;
+                }
+                "bin" => {
+                    raw.extend_from_slice(b"Content-Transfer-Encoding: binary\r\n\r\n");
+                    for byte in sb {
+                        sig_pos.push(raw.len());
+                        raw.push(*byte);
                     }
                 }
-                raw.extend_from_slice(b"\r\n");
+                other => panic!("driver: unknown encoding {other}"),
             }
+            raw.extend_from_slice(b"\r\n");
         };
         if m["order"].as_str().unwrap_or("ds") == "ds" {
             put_data(&mut raw);
@@ -877,18 +896,627 @@ fn build_envelope(m: &Value) -> (Envelope, Option<Built>) {
         }
         raw.extend_from_slice(format!("--{b}--\r\n").as_bytes());
     }
-    match m["cks"].as_str().unwrap_or("none") {
-        "none" => {}
-        "sha256" => raw.extend_from_slice(format!("Checksum: {}\r\n", hex::encode(sha256(&raw))).as_bytes()),
-        "sha256uc" => raw.extend_from_slice(format!("Checksum: {}\r\n", hex::encode(sha256(&raw)).to_uppercase()).as_bytes()),
-        "md5" => raw.extend_from_slice(format!("Checksum: {}\r\n", md5hex(&raw)).as_bytes()),
-        "bad64" => raw.extend_from_slice(format!("Checksum: {}\r\n", hex::encode(sha256(b"something else"))).as_bytes()),
-        "bad32" => raw.extend_from_slice(format!("Checksum: {}\r\n", md5hex(b"something else")).as_bytes()),
+    let cks_text = match m["cks"].as_str().unwrap_or("none") {
+        "none" => "none".to_string(),
+        "sha256" => hex::encode(sha256(&raw)),
+        "sha256uc" => hex::encode(sha256(&raw)).to_uppercase(),
+        "md5" => md5hex(&raw),
+        "bad64" => hex::encode(sha256(b"something else")),
+        "bad32" => md5hex(b"something else"),
         other => panic!("driver: unknown checksum kind {other}"),
+    };
+    if cks_text != "none" {
+        raw.extend_from_slice(format!("Checksum: {cks_text}\r\n").as_bytes());
     }
-    (Envelope { raw, data_at, sig_at, sig_chars }, built)
+    (Envelope { raw, cks_text, sig_pos, b64: is_b64 }, built)
 }
 
+/// the bytes a caller hands in as "the data that was signed"
+fn signed_data_arg(sd: &str, c: u64) -> Option<Vec<u8>> {
+    match sd {
+        "none" => None,
+        "part" => Some(content(c)),
+        "other" => Some(content(if c == 1 { 2 } else { 1 })),
+        other => panic!("driver: unknown sd {other}"),
+    }
+}
+
+fn coalesce(mut pos: Vec<usize>) -> Vec<Value> {
+    pos.sort_unstable();
+    let mut out: Vec<(usize, usize)> = vec![];
+    for p in pos {
+        match out.last_mut() {
+            Some(l) if l.1 == p => l.1 = p + 1,
+            _ => out.push((p, p + 1)),
+        }
+    }
+    out.into_iter().map(|(a, b)| json!([a, b])).collect()
+}
+
+/// regions of the blob mapped into the response: positions whose every bit lies inside the region
+fn map_regions(regs: &Value, env: &Envelope) -> Value {
+    let mut out = serde_json::Map::new();
+    for (name, list) in regs.as_object().unwrap() {
+        let mut pos = vec![];
+        for r in list.as_array().unwrap() {
+            let (lo, hi) = (r[0].as_u64().unwrap() as usize, r[1].as_u64().unwrap() as usize);
+            if env.b64 {
+                let first = (8 * lo).div_ceil(6);
+                let end = 8 * hi / 6;
+                for j in first..end {
+                    pos.push(env.sig_pos[j]);
+                }
+            } else {
+                for i in lo..hi {
+                    pos.push(env.sig_pos[i]);
+                }
+            }
+        }
+        out.insert(name.clone(), json!(coalesce(pos)));
+    }
+    Value::Object(out)
+}
+
+// =========================================================================== synchronous programs
+fn run_verify(p: &Value, em: &Emit) {
+    let blob = match p["blob"].as_str() {
+        Some(h) => hex::decode(h).expect("driver: blob hex"),
+        None => build_cms(&p["cms"]).der,
+    };
+    let d = p["data"].as_u64().unwrap_or(0);
+    let data = if d > 0 { Some(content(d)) } else { None };
+    let mut ev = p.clone();
+    ev.as_object_mut().unwrap().remove("blob");
+    ev["op"] = json!("verify");
+    ev["src"] = json!(if p["blob"].is_string() { p["src"].as_str().unwrap_or("fixture") } else { "driver" });
+    ev["len"] = json!(blob.len());
+    ev["res"] = call_verify(&blob, data.as_deref());
+    em.ev(ev);
+}
+
+fn run_mime(p: &Value, em: &Emit) {
+    let (env, _) = build_envelope(&p["env"]);
+    let c = p["env"]["c"].as_u64().unwrap_or(1);
+    let want = trimmed_md5(&content(c));
+    let sd = p["sd"].as_str().unwrap_or("part");
+    let sda = signed_data_arg(sd, c);
+    let mut ev = p.clone();
+    ev["op"] = json!("mime_v1");
+    ev["want_md5"] = json!(want);
+    ev["want_cks"] = json!(env.cks_text);
+    ev["len"] = json!(env.raw.len());
+    ev["res"] = call_mime_v1(&env.raw, sda.as_deref());
+    em.ev(ev);
+    if p["legacy"].as_bool().unwrap_or(false) {
+        let mut ev = p.clone();
+        ev["op"] = json!("mime_legacy");
+        ev["want_md5"] = json!(want);
+        ev["want_cks"] = json!(env.cks_text);
+        ev["want_sig_md5"] = match p["env"]["sig"].as_str().unwrap_or("none") {
+            "none" => json!("none"),
+            // the decoded body of the signature part
+            _ => json!(md5hex(&sig_part_bytes(&p["env"]))),
+        };
+        ev["res"] = call_mime_legacy(&env.raw);
+        em.ev(ev);
+        em.ev(detect_event(&env.raw, json!(if p["env"]["mp"].as_bool().unwrap_or(true) { "true" } else { "false" })));
+    }
+}
+/// both detectors on one input (answers and expectation as "true" | "false" | "panic" | "any"); `straddle`: byte 512 of the lossily decoded text lies inside a character
+fn detect_event(raw: &[u8], expect: Value) -> Value {
+    let v1d = guarded(|| cascette_protocol::v1_mime::is_v1_mime_response(raw));
+    let lgd = guarded(|| cascette_protocol::mime_parser::is_v1_mime_response(raw));
+    let text = String::from_utf8_lossy(raw);
+    json!({"op": "detect", "expect": expect, "len": raw.len(), "straddle": text.len() > 512 && !text.is_char_boundary(512),
+        "res": {"v1": v1d.map(|b| b.to_string()).unwrap_or("panic".into()), "legacy": lgd.map(|b| b.to_string()).unwrap_or("panic".into())}})
+}
+fn sig_part_bytes(m: &Value) -> Vec<u8> {
+    match m["sig"].as_str().unwrap_or("none") {
+        "cms" => build_cms(&m["cms"]).der,
+        "junk_der" => seq(&[oid(OID_DATA), ctx_explicit(0, &octets(b"well-formed DER, not a signature"))]),
+        "cut" => {
+            let mut v = build_cms(&json!({"certs": [], "signers": [], "econtent": 0})).der;
+            v.truncate(v.len() - 3);
+            v
+        }
+        _ => b"this is not a signature at all".to_vec(),
+    }
+}
+
+/// every bit flip / every proper prefix / a few extensions of one input of one valid base case
+fn run_fault(p: &Value, em: &Emit) {
+    let level = p["level"].as_str().unwrap_or("verify");
+    let target = p["target"].as_str().expect("fault.target");
+    let fault = p["fault"].as_str().expect("fault.fault");
+    let mut ev = p.clone();
+    ev["op"] = json!("fault");
+    // the input that is damaged, the fixed other argument, and the call
+    let (subject, regions, call): (Vec<u8>, Value, Box<dyn Fn(&[u8]) -> u8>) = if level == "verify" {
+        let b = build_cms(&p["cms"]);
+        let d = p["data"].as_u64().unwrap_or(1);
+        let data = content(d);
+        let regs = blob_regions(&p["cms"], &b);
+        if target == "blob" {
+            (b.der.clone(), regs, Box::new(move |x: &[u8]| verify_code(&call_verify(x, Some(&data)))))
+        } else {
+            let blob = b.der.clone();
+            let n = data.len();
+            (data, json!({"data": [[0, n]]}), Box::new(move |x: &[u8]| verify_code(&call_verify(&blob, Some(x)))))
+        }
+    } else {
+        let (env, built) = build_envelope(&p["env"]);
+        let c = p["env"]["c"].as_u64().unwrap_or(1);
+        let sda = signed_data_arg(p["sd"].as_str().unwrap_or("part"), c);
+        let regs = match &built {
+            Some(b) => map_regions(&blob_regions(&p["env"]["cms"], b), &env),
+            None => json!({}),
+        };
+        (env.raw.clone(), regs, Box::new(move |x: &[u8]| mime_code(&call_mime_v1(x, sda.as_deref()))))
+    };
+    ev["n"] = json!(subject.len());
+    ev["regions"] = regions;
+    ev["base"] = json!(call(&subject));
+    let mut codes: Vec<u8> = vec![];
+    match fault {
+        "flip" => {
+            let mut x = subject.clone();
+            for i in 0..x.len() {
+                for bit in 0..8 {
+                    x[i] ^= 1 << bit;
+                    codes.push(call(&x));
+                    x[i] ^= 1 << bit;
+                }
+            }
+        }
+        "trunc" => {
+            for m in 0..subject.len() {
+                codes.push(call(&subject[..m]));
+            }
+        }
+        "ext" => {
+            let tail: Vec<u8> = subject[subject.len().saturating_sub(16)..].to_vec();
+            for extra in [vec![0u8], vec![0xffu8], tail, vec![0u8; 1000], b"\r\n".to_vec()] {
+                let mut x = subject.clone();
+                x.extend(extra);
+                codes.push(call(&x));
+            }
+        }
+        other => panic!("driver: unknown fault {other}"),
+    }
+    ev["codes"] = json!(codes);
+    em.ev(ev);
+}
+
+/// literal or damaged bytes: totality of the verifier, the two parsers and the two detectors.
+/// {"hex":..} | {"cms":{..}} | {"env":{..}}, then "edits":[[pos,byte]..] (positions modulo the length), "cut":n, "append":hex
+fn run_raw(p: &Value, em: &Emit) {
+    let mut bytes = if let Some(h) = p["hex"].as_str() {
+        hex::decode(h).expect("driver: raw hex")
+    } else if p["cms"].is_object() {
+        build_cms(&p["cms"]).der
+    } else {
+        build_envelope(&p["env"]).0.raw
+    };
+    let empty = vec![];
+    for e in p["edits"].as_array().unwrap_or(&empty) {
+        if !bytes.is_empty() {
+            let i = e[0].as_u64().unwrap() as usize % bytes.len();
+            bytes[i] = e[1].as_u64().unwrap() as u8;
+        }
+    }
+    if let Some(n) = p["cut"].as_u64() {
+        bytes.truncate(n as usize % (bytes.len() + 1));
+    }
+    if let Some(h) = p["append"].as_str() {
+        bytes.extend(hex::decode(h).expect("driver: append hex"));
+    }
+    let c1 = content(1);
+    let d = detect_event(&bytes, p["expect"].clone());
+    em.ev(json!({"op": "raw", "what": p["what"], "len": bytes.len(), "expect": p["expect"], "straddle": d["straddle"],
+        "novalid": p["novalid"].as_bool().unwrap_or(false),
+        "verify": verify_code(&call_verify(&bytes, Some(&c1))),
+        "v1": mime_code(&call_mime_v1(&bytes, Some(&c1))),
+        "v1_none": mime_code(&call_mime_v1(&bytes, None)),
+        "legacy": match call_mime_legacy(&bytes)["class"].as_str().unwrap() { "err" => 0, "panic" => 3, _ => 1 },
+        "detect": d["res"]}));
+}
+
+// =========================================================================== loopback mocks
+fn runtime() -> &'static tokio::runtime::Runtime {
+    static RT: std::sync::OnceLock<tokio::runtime::Runtime> = std::sync::OnceLock::new();
+    RT.get_or_init(|| tokio::runtime::Builder::new_multi_thread().worker_threads(3).enable_all().build().expect("tokio runtime"))
+}
+fn prog_ip(idx: usize) -> String {
+    format!("127.7.{}.{}", 1 + std::process::id() % 250, 1 + idx % 250)
+}
+fn scratch() -> std::path::PathBuf {
+    let p = std::path::Path::new("/dev/shm");
+    if p.is_dir() { p.to_path_buf() } else { std::env::temp_dir() }
+}
+fn text_of(b: &[u8]) -> Value {
+    match std::str::from_utf8(b) {
+        Ok(s) => json!(s),
+        Err(_) => json!(format!("hex:{}", hex::encode(b))),
+    }
+}
+
+/// Ribbit mock: per connection reads the whole command (until the client's half-close), logs it, answers `resp`
+async fn ribbit_mock(ip: &str, resp: Option<Vec<u8>>) -> (u16, Arc<Mutex<Vec<Vec<u8>>>>, tokio::task::JoinHandle<()>) {
+    let l = TcpListener::bind(format!("{ip}:0")).await.expect("bind ribbit mock");
+    let port = l.local_addr().unwrap().port();
+    let log: Arc<Mutex<Vec<Vec<u8>>>> = Arc::new(Mutex::new(vec![]));
+    let lg = log.clone();
+    let h = tokio::spawn(async move {
+        loop {
+            let Ok((mut s, _)) = l.accept().await else { continue };
+            let (lg, resp) = (lg.clone(), resp.clone());
+            tokio::spawn(async move {
+                let mut cmd = vec![];
+                let mut buf = [0u8; 4096];
+                let _ = tokio::time::timeout(Duration::from_secs(20), async {
+                    loop {
+                        match s.read(&mut buf).await {
+                            Ok(0) | Err(_) => break,
+                            Ok(n) => cmd.extend_from_slice(&buf[..n]),
+                        }
+                    }
+                })
+                .await;
+                lg.lock().unwrap().push(cmd);
+                if let Some(r) = resp {
+                    let _ = s.write_all(&r).await;
+                }
+                let _ = s.shutdown().await;
+            });
+        }
+    });
+    (port, log, h)
+}
+
+fn reason(code: u16) -> &'static str {
+    match code {
+        200 => "OK",
+        206 => "Partial Content",
+        400 => "Bad Request",
+        403 => "Forbidden",
+        404 => "Not Found",
+        429 => "Too Many Requests",
+        500 => "Internal Server Error",
+        502 => "Bad Gateway",
+        503 => "Service Unavailable",
+        _ => "Status",
+    }
+}
+
+struct HttpCtx {
+    /// the i-th request for a path is answered with script[min(i, len) - 1]
+    script: Vec<u16>,
+    body: Box<dyn Fn(&str) -> Vec<u8> + Send + Sync>,
+    seen: Mutex<HashMap<String, usize>>,
+    /// (method, path, code)
+    reqs: Mutex<Vec<(String, String, u16)>>,
+}
+async fn http_mock(ip: &str, ctx: Arc<HttpCtx>) -> (u16, tokio::task::JoinHandle<()>) {
+    let l = TcpListener::bind(format!("{ip}:0")).await.expect("bind http mock");
+    let port = l.local_addr().unwrap().port();
+    let h = tokio::spawn(async move {
+        loop {
+            let Ok((s, _)) = l.accept().await else { continue };
+            tokio::spawn(http_conn(s, ctx.clone()));
+        }
+    });
+    (port, h)
+}
+async fn http_conn(mut s: TcpStream, ctx: Arc<HttpCtx>) {
+    let _ = s.set_nodelay(true);
+    let mut head = vec![];
+    let mut buf = [0u8; 2048];
+    let _ = tokio::time::timeout(Duration::from_secs(20), async {
+        loop {
+            match s.read(&mut buf).await {
+                Ok(0) | Err(_) => break,
+                Ok(n) => {
+                    head.extend_from_slice(&buf[..n]);
+                    if head.windows(4).any(|w| w == b"\r\n\r\n") || head.len() > 32768 {
+                        break;
+                    }
+                }
+            }
+        }
+    })
+    .await;
+    if head.is_empty() {
+        return;
+    }
+    let text = String::from_utf8_lossy(&head).to_string();
+    let mut it = text.lines().next().unwrap_or("").split(' ');
+    let method = it.next().unwrap_or("").to_string();
+    let path = it.next().unwrap_or("").to_string();
+    let i = {
+        let mut seen = ctx.seen.lock().unwrap();
+        let c = seen.entry(path.clone()).or_insert(0);
+        *c += 1;
+        *c
+    };
+    let code = ctx.script[(i - 1).min(ctx.script.len() - 1)];
+    ctx.reqs.lock().unwrap().push((method.clone(), path.clone(), code));
+    let body = if (200..300).contains(&code) { (ctx.body)(&path) } else { format!("status {code}\n").into_bytes() };
+    let h = format!(
+        "HTTP/1.1 {code} {}\r\nContent-Type: application/octet-stream\r\nContent-Length: {}\r\nConnection: close\r\n\r\n",
+        reason(code),
+        body.len()
+    );
+    let _ = s.write_all(h.as_bytes()).await;
+    if method != "HEAD" {
+        let _ = s.write_all(&body).await;
+    }
+    let _ = s.shutdown().await;
+}
+
+fn err_kind(e: &cascette_protocol::ProtocolError) -> String {
+    let d = format!("{e:?}");
+    d.split(|c: char| !c.is_alphanumeric()).next().unwrap_or("").to_string()
+}
+
+/// a future of the code under test, polled inside `guarded`: a panic is an outcome (and stays quiet)
+struct GuardedFut<F>(std::pin::Pin<Box<F>>);
+impl<F: std::future::Future> std::future::Future for GuardedFut<F> {
+    type Output = Result<F::Output, String>;
+    fn poll(mut self: std::pin::Pin<&mut Self>, cx: &mut std::task::Context<'_>) -> std::task::Poll<Self::Output> {
+        match guarded(|| self.0.as_mut().poll(cx)) {
+            Ok(std::task::Poll::Ready(v)) => std::task::Poll::Ready(Ok(v)),
+            Ok(std::task::Poll::Pending) => std::task::Poll::Pending,
+            Err(msg) => std::task::Poll::Ready(Err(msg)),
+        }
+    }
+}
+async fn guarded_async<T: Send + 'static>(f: impl std::future::Future<Output = T> + Send + 'static) -> Result<T, Value> {
+    match tokio::time::timeout(Duration::from_secs(100), tokio::spawn(GuardedFut(Box::pin(f)))).await {
+        Ok(Ok(Ok(v))) => Ok(v),
+        Ok(Ok(Err(msg))) => Err(json!({"class": "panic", "msg": short(msg)})),
+        Ok(Err(e)) => Err(json!({"class": "panic", "msg": short(e.to_string())})),
+        Err(_) => Err(json!({"class": "hang"})),
+    }
+}
+
+// =========================================================================== certificate fetcher
+fn pem_of(der: &[u8]) -> String {
+    let t = b64(der);
+    let mut s = String::from("-----BEGIN CERTIFICATE-----\n");
+    for ch in t.as_bytes().chunks(64) {
+        s.push_str(std::str::from_utf8(ch).unwrap());
+        s.push('\n');
+    }
+    s.push_str("-----END CERTIFICATE-----\n");
+    s
+}
+
+/// the scripted answer of the certificate endpoint
+fn pem_response(r: &Value) -> Option<Vec<u8>> {
+    let t = r["t"].as_str().expect("resp.t");
+    let cert = || pem_of(&build_cert(&r["cert"]));
+    Some(match t {
+        "pem" => cert().into_bytes(),
+        "pem_text" => format!("Certificate for you:\r\n\r\n{}\r\nregards\r\n", cert()).into_bytes(),
+        "mime" => {
+            // the shape of a Ribbit V1 answer: the PEM text is the data part
+            let mut raw = format!(
+                "MIME-Version: 1.0\r\nContent-Type: multipart/alternative; boundary=\"X07B\"\r\n\r\n--X07B\r\nContent-Type: text/plain\r\nContent-Disposition: cert\r\n\r\n{}\r\n--X07B--\r\n",
+                cert()
+            )
+            .into_bytes();
+            let ck = hex::encode(sha256(&raw));
+            raw.extend_from_slice(format!("Checksum: {ck}\r\n").as_bytes());
+            raw
+        }
+        "two" => format!("{}{}", cert(), pem_of(&build_cert(&r["cert2"]))).into_bytes(),
+        "endfirst" => format!("-----END CERTIFICATE-----\n{}", cert()).into_bytes(),
+        "endonly" => b"nothing here -----END CERTIFICATE----- and then -----BEGIN CERTIFICATE-----\n".to_vec(),
+        "nopem" => b"## seqn = 1\nno certificate here\n".to_vec(),
+        "noend" => cert().replace("-----END CERTIFICATE-----\n", "").into_bytes(),
+        "badb64" => b"-----BEGIN CERTIFICATE-----\n!!!! not base64 !!!!\n-----END CERTIFICATE-----\n".to_vec(),
+        "cutder" => {
+            let d = build_cert(&r["cert"]);
+            pem_of(&d[..d.len() / 2]).into_bytes()
+        }
+        "empty" => vec![],
+        "nonutf8" => {
+            let mut v = cert().into_bytes();
+            v.splice(0..0, [0xff, 0xfe, 0x80]);
+            v
+        }
+        "close" => return None,
+        other => panic!("driver: unknown answer {other}"),
+    })
+}
+
+fn cert_want(c: &Value) -> Value {
+    let k = key(c["key"].as_u64().unwrap());
+    let rsa = c["alg"].as_str().unwrap_or("rsa") == "rsa";
+    let serial = der_children(&int_u(c["serial"].as_u64().unwrap()))[0].1.clone();
+    json!({"subject": format!("CN={}", c["name"].as_str().unwrap()), "issuer": format!("CN={}", c["name"].as_str().unwrap()),
+        "serial": hex::encode(serial), "ski": c["ski"].as_str().unwrap_or(""),
+        "alg": if rsa { "RSA" } else { "ECDSA" },
+        "key_md5": if rsa { md5hex(&k.pkcs1_public()) } else { "ec".to_string() }, "bits": if rsa { k.klen() * 8 } else { 0 }})
+}
+
+async fn run_pem(p: Value, idx: usize) -> Vec<Value> {
+    let ip = prog_ip(idx);
+    let (port, log, h) = ribbit_mock(&ip, pem_response(&p["resp"])).await;
+    let id = p["id"].as_str().expect("pem.id").to_string();
+    let via = p["via"].as_str().unwrap_or("ski").to_string();
+    let url = format!("tcp://{ip}:{port}");
+    let res = guarded_async(async move {
+        let client = RibbitClient::new(url).expect("ribbit client");
+        let f = CertificateFetcher::new(&client);
+        if via == "ski" { f.fetch_by_ski(&id).await } else { f.fetch_by_hash(&id).await }
+    })
+    .await;
+    let res = match res {
+        Err(v) => v,
+        Ok(Err(e)) => json!({"class": "err", "kind": err_kind(&e), "msg": short(e.to_string())}),
+        Ok(Ok(ci)) => {
+            let pk = ci.public_key.as_ref();
+            json!({"class": "ok", "subject": ci.subject, "issuer": ci.issuer, "serial": ci.serial_number,
+                "ski": ci.subject_key_identifier.clone().unwrap_or_default(),
+                "alg": pk.map(|k| k.algorithm.clone()).unwrap_or_default(),
+                "key_md5": pk.map(|k| if k.algorithm == "RSA" { md5hex(&k.key_bytes) } else { "ec".to_string() }).unwrap_or_default(),
+                "bits": pk.map(|k| if k.algorithm == "RSA" { k.key_size } else { 0 }).unwrap_or(0),
+                "chain_fn": validate_certificate_chain(&[ci.clone()])})
+        }
+    };
+    h.abort();
+    let cmds: Vec<Value> = log.lock().unwrap().iter().map(|c| text_of(c)).collect();
+    let mut ev = p.clone();
+    ev["op"] = json!("pem");
+    ev["cmds"] = json!(cmds);
+    ev["res"] = res;
+    if p["resp"]["cert"].is_object() {
+        ev["want"] = cert_want(&p["resp"]["cert"]);
+    }
+    vec![ev]
+}
+
+// =========================================================================== request formatting
+const BPSV_OK: &str = "Region!STRING:0|BuildConfig!HEX:16|BuildId!DEC:4\n## seqn = 7\nus|0123456789abcdef0123456789abcdef|61491\n";
+
+async fn run_req(p: Value, idx: usize) -> Vec<Value> {
+    let ip = prog_ip(idx);
+    let ep = p["ep"].as_str().expect("req.ep").to_string();
+    let code = p["code"].as_u64().unwrap_or(200) as u16;
+    let body_ok = p["body"].as_str().unwrap_or("ok") == "ok";
+    let body: Vec<u8> = if body_ok { BPSV_OK.as_bytes().to_vec() } else { b"<html>this is not BPSV</html>".to_vec() };
+    let mut ev = p.clone();
+    ev["op"] = json!("req");
+    match p["client"].as_str().expect("req.client") {
+        "ribbit" => {
+            let (port, log, h) = ribbit_mock(&ip, Some(body.clone())).await;
+            let url = format!("tcp://{ip}:{port}");
+            let e2 = ep.clone();
+            let res = guarded_async(async move { RibbitClient::new(url).expect("ribbit client").query_raw(&e2).await }).await;
+            h.abort();
+            ev["cmds"] = json!(log.lock().unwrap().iter().map(|c| text_of(c)).collect::<Vec<_>>());
+            ev["res"] = match res {
+                Err(v) => v,
+                Ok(Err(e)) => json!({"class": "err", "kind": err_kind(&e)}),
+                Ok(Ok(b)) => json!({"class": "ok", "same": b == body, "len": b.len()}),
+            };
+        }
+        "tact" => {
+            let b2 = body.clone();
+            let ctx = Arc::new(HttpCtx { script: vec![code], body: Box::new(move |_| b2.clone()), seen: Mutex::new(HashMap::new()), reqs: Mutex::new(vec![]) });
+            let (port, h) = http_mock(&ip, ctx.clone()).await;
+            let base = format!("http://{ip}:{port}");
+            let e2 = ep.clone();
+            let res = guarded_async(async move { TactClient::new(base, false).expect("tact client").query(&e2).await }).await;
+            h.abort();
+            ev["reqs"] = json!(ctx.reqs.lock().unwrap().iter().map(|(m, p, _)| json!({"method": m, "path": p})).collect::<Vec<_>>());
+            ev["res"] = match res {
+                Err(v) => v,
+                Ok(Err(e)) => json!({"class": "err", "kind": err_kind(&e)}),
+                Ok(Ok(doc)) => json!({"class": "ok", "rows": doc.rows().len()}),
+            };
+        }
+        "unified" => {
+            // all three protocols point at mocks; only validation and the first contact are looked at (the chain is C13's)
+            let b2 = body.clone();
+            let ctx = Arc::new(HttpCtx { script: vec![code], body: Box::new(move |_| b2.clone()), seen: Mutex::new(HashMap::new()), reqs: Mutex::new(vec![]) });
+            let (hport, hh) = http_mock(&ip, ctx.clone()).await;
+            let (tport, tlog, th) = ribbit_mock(&ip, Some(body.clone())).await;
+            let cfg = cascette_protocol::ClientConfig {
+                tact_https_url: format!("http://{ip}:{hport}"),
+                tact_http_url: String::new(),
+                ribbit_url: format!("tcp://{ip}:{tport}"),
+                cache_config: cascette_protocol::CacheConfig { cache_dir: None, ..Default::default() },
+                ..Default::default()
+            };
+            let e2 = ep.clone();
+            let res = guarded_async(async move { cascette_protocol::RibbitTactClient::new(cfg).expect("unified client").query(&e2).await }).await;
+            hh.abort();
+            th.abort();
+            ev["reqs"] = json!(ctx.reqs.lock().unwrap().iter().map(|(m, p, _)| json!({"method": m, "path": p})).collect::<Vec<_>>());
+            ev["cmds"] = json!(tlog.lock().unwrap().iter().map(|c| text_of(c)).collect::<Vec<_>>());
+            ev["res"] = match res {
+                Err(v) => v,
+                Ok(Err(e)) => json!({"class": "err", "kind": err_kind(&e)}),
+                Ok(Ok(doc)) => json!({"class": "ok", "rows": doc.rows().len()}),
+            };
+        }
+        other => panic!("driver: unknown client {other}"),
+    }
+    vec![ev]
+}
+
+// =========================================================================== archive index / data downloads
+fn cdn_body(path: &str) -> Vec<u8> {
+    format!("BODY:{path}").into_bytes()
+}
+
+async fn run_cdn(p: Value, idx: usize) -> Vec<Value> {
+    let ip = prog_ip(idx);
+    let script: Vec<u16> = p["script"].as_array().expect("cdn.script").iter().map(|x| x.as_u64().unwrap() as u16).collect();
+    let cache_kind = p["cache"].as_str().unwrap_or("mem").to_string();
+    let ctx = Arc::new(HttpCtx { script, body: Box::new(cdn_body), seen: Mutex::new(HashMap::new()), reqs: Mutex::new(vec![]) });
+    let (port, h) = http_mock(&ip, ctx.clone()).await;
+    let dir = tempfile::Builder::new().prefix("x07-").tempdir_in(scratch()).expect("tempdir");
+    let long = Duration::from_secs(3600);
+    let ccfg = cascette_protocol::CacheConfig {
+        cache_dir: if cache_kind == "disk" { Some(dir.path().join("cache")) } else { None },
+        ribbit_ttl: long,
+        cdn_ttl: long,
+        config_ttl: long,
+        ..Default::default()
+    };
+    let mk = |cfg: &cascette_protocol::CacheConfig| -> Arc<CdnClient> {
+        let cache = cascette_protocol::cache::ProtocolCache::new(cfg).expect("protocol cache");
+        Arc::new(CdnClient::new(Arc::new(cache), cascette_protocol::CdnConfig::default()).expect("cdn client"))
+    };
+    let mut client = mk(&ccfg);
+    let endpoint = CdnEndpoint {
+        host: format!("{ip}:{port}"),
+        path: p["path"].as_str().unwrap_or("tpr/wow").to_string(),
+        product_path: None,
+        scheme: Some("http".into()),
+        is_fallback: false,
+        strict: false,
+        max_hosts: None,
+    };
+    let mut evs = vec![];
+    let mut seq_no = 0u64;
+    for op in p["ops"].as_array().expect("cdn.ops") {
+        seq_no += 1;
+        let mut ev = op.clone();
+        ev["seq"] = json!(seq_no);
+        let name = op["op"].as_str().expect("op.op").to_string();
+        if name == "reopen" {
+            client = mk(&ccfg);
+            evs.push(ev);
+            continue;
+        }
+        let k = op["k"].as_str().expect("op.k").to_string();
+        let mark = ctx.reqs.lock().unwrap().len();
+        let (c, e2) = (client.clone(), endpoint.clone());
+        let res = match name.as_str() {
+            "idx" => guarded_async(async move { c.download_archive_index(&e2, &k).await }).await,
+            "dat" => {
+                let kb = hex::decode(&k).expect("driver: data keys are hex");
+                guarded_async(async move { c.download(&e2, ContentType::Data, &kb).await }).await
+            }
+            other => panic!("driver: unknown cdn op {other}"),
+        };
+        ev["res"] = match res {
+            Err(v) => v,
+            Ok(Err(e)) => json!({"class": "err", "kind": err_kind(&e)}),
+            Ok(Ok(b)) => json!({"class": "ok", "body": text_of(&b)}),
+        };
+        ev["reqs"] = json!(ctx.reqs.lock().unwrap()[mark..].iter().map(|(m, p, c)| json!({"method": m, "path": p, "code": c})).collect::<Vec<_>>());
+        evs.push(ev);
+    }
+    h.abort();
+    evs
+}
+
+// =========================================================================== main
 fn main() {
     self_check();
     let args: Vec<String> = std::env::args().collect();
@@ -897,46 +1525,47 @@ fn main() {
         explore();
         return;
     }
-    eprintln!("ok");
+    let mut out = Out::from_arg(arg(&args, "--out").as_ref());
+    let programs = arg(&args, "--programs").map(|p| read_programs(&p)).unwrap_or_default();
+    let n = programs.len();
+    let stats = run_with_watchdog(programs, &mut out, Duration::from_secs(150), |p, em| {
+        let kind = p["kind"].as_str().expect("program.kind").to_string();
+        let mut head = json!({"op": "new", "kind": kind, "prog": p});
+        if kind == "cdn" {
+            head["cache"] = p["cache"].clone();
+            head["script"] = p["script"].clone();
+            head["path"] = json!(p["path"].as_str().unwrap_or("tpr/wow"));
+        }
+        em.ev(head);
+        em.begin(p);
+        match kind.as_str() {
+            "verify" => run_verify(p, em),
+            "mime" => run_mime(p, em),
+            "fault" => run_fault(p, em),
+            "raw" => run_raw(p, em),
+            "pem" => runtime().block_on(run_pem(p.clone(), em.prog)).into_iter().for_each(|e| em.ev(e)),
+            "req" => runtime().block_on(run_req(p.clone(), em.prog)).into_iter().for_each(|e| em.ev(e)),
+            "cdn" => runtime().block_on(run_cdn(p.clone(), em.prog)).into_iter().for_each(|e| em.ev(e)),
+            other => panic!("driver: unknown program kind {other}"),
+        }
+    });
+    out.flush();
+    eprintln!("{}", json!({"programs": stats.programs, "events": out.events, "hangs": stats.hangs, "skipped": stats.skipped}));
+    std::process::exit(if stats.programs as usize == n && stats.skipped == 0 { 0 } else { 3 });
 }
 
 fn explore() {
-    let certa = json!({"key":1,"name":"A","serial":1,"ski":"a1b2c3d4","alg":"rsa"});
-    let base = json!({"certs":[certa.clone()],"signers":[{"sid":{"t":"isn","name":"A","serial":1},"dalg":"sha256","by":1,"over":{"t":"content","c":1},"attrs":null}],"econtent":null});
+    let certa = json!({"key":1,"name":"A","serial":1,"ski":"a1b2c3d4","alg":"rsa","exp":false});
+    let signer = json!({"sidt":"isn","sname":"A","sserial":1,"sski":"","dalg":"sha256","by":1,"over":"content","oc":1,"attrs":false,"md":0});
+    let base = json!({"certs":[certa.clone()],"signers":[signer.clone()],"econtent":0,"wrap":"signed"});
     let b = build_cms(&base);
-    std::fs::write("/tmp/x07/base.der", &b.der).unwrap();
-    std::fs::write("/tmp/x07/c1.txt", content(1)).unwrap();
-    std::fs::write("/tmp/x07/certa.der", build_cert(&certa)).unwrap();
     println!("detached c1 / data c1: {}", call_verify(&b.der, Some(&content(1))));
-    println!("detached c1 / data c2: {}", call_verify(&b.der, Some(&content(2))));
-    println!("detached c1 / none: {}", call_verify(&b.der, None));
-    println!("regions {}", blob_regions(&base, &b));
-    let mut att = base.clone();
-    att["econtent"] = json!(1);
-    let b2 = build_cms(&att);
-    std::fs::write("/tmp/x07/att.der", &b2.der).unwrap();
-    println!("attached c1 / data c1: {}", call_verify(&b2.der, Some(&content(1))));
-    println!("attached c1 / data c2: {}", call_verify(&b2.der, Some(&content(2))));
-    let mut wa = base.clone();
-    wa["signers"][0]["attrs"] = json!({"md":1});
-    wa["signers"][0]["over"] = json!({"t":"attrs"});
-    let b3 = build_cms(&wa);
-    std::fs::write("/tmp/x07/attrs.der", &b3.der).unwrap();
-    println!("attrs ok / data c1: {}", call_verify(&b3.der, Some(&content(1))));
-    wa["signers"][0]["over"] = json!({"t":"content","c":1});
-    wa["signers"][0]["attrs"] = json!({"md":2});
-    println!("attrs(md c2) but direct c1 / data c1: {}", call_verify(&build_cms(&wa).der, Some(&content(1))));
-    let mut sk = base.clone();
-    sk["signers"][0]["sid"] = json!({"t":"ski","ski":"a1b2c3d4"});
-    println!("ski sid: {}", call_verify(&build_cms(&sk).der, Some(&content(1))));
-    sk["certs"] = json!([]);
-    println!("ski sid no certs: {}", call_verify(&build_cms(&sk).der, Some(&content(1))));
-    for (cks, enc, sd) in [("none","cte","part"),("sha256","cte","part"),("md5","cte","part"),("md5","line","part"),("md5","wrap","part"),("md5","bin","part"),("md5","cte","none"),("bad32","cte","part"),("sha256uc","cte","part")] {
-        let m = json!({"c":1,"sig":{"cms":base.clone()},"enc":enc,"cks":cks});
-        let (env, _) = build_envelope(&m);
-        let c1 = content(1);
-        let sdv: Option<&[u8]> = if sd == "part" { Some(&c1) } else { None };
-        println!("mime cks={cks} enc={enc} sd={sd}: v1={} legacy={}", call_mime_v1(&env.raw, sdv), call_mime_legacy(&env.raw));
-        if cks == "sha256" { std::fs::write("/tmp/x07/resp.txt", &env.raw).unwrap(); }
+    for enc in ["cte", "bin", "tline"] {
+        for sig in ["cms", "junk_text", "junk_der", "cut", "none"] {
+            let m = json!({"c":1,"sig":sig,"cms":base.clone(),"enc":enc,"cks":"md5","disp":"version","order":"ds","mp":true});
+            let (env, _) = build_envelope(&m);
+            let c1 = content(1);
+            println!("mime enc={enc} sig={sig}: v1={} legacy={}", call_mime_v1(&env.raw, Some(&c1)), call_mime_legacy(&env.raw));
+        }
     }
 }
